@@ -443,6 +443,30 @@ func (r *Report) finish(noEvidence bool) int {
 		fmt.Printf("FAILED %s\n", e)
 		fmt.Printf("VIOLATION property=%s replay=%s no-failing-input-found\n", orDefault(r.prop, "all"), path)
 	}
+	var bounded []boundedResult
+	if r.tier == "thorough" && r.prop != "" {
+		bounded = runBounded(r.eng.repoDir, r.verif, r.prop)
+		for _, br := range bounded {
+			fmt.Printf("bounded   %-60s %s cases=%d %.1fs (%s)\n", br.Name, br.Status, br.Cases, br.Secs, br.Label)
+			if br.Status == "passed" {
+				continue
+			}
+			violations++
+			os.MkdirAll(replayDir, 0o755)
+			path := filepath.Join(replayDir, "bounded_"+sanitize(br.Name)+".json")
+			b, _ := json.MarshalIndent(map[string]interface{}{"property": r.prop, "obligation": "bounded:" + br.Name, "kind": "bounded stand-in",
+				"description": "bounded stand-in for an assumed contract failed on the real code: " + br.StandinFor, "failing_input": br.FailingInput,
+				"output": br.Output, "status": br.Status, "rerun": "./check.sh " + r.prop + " thorough"}, "", " ")
+			os.WriteFile(path, b, 0o644)
+			if br.Status == "failed" {
+				fmt.Printf("FAILED bounded stand-in %s: %s\n", br.Name, br.FailingInput)
+				fmt.Printf("VIOLATION property=%s replay=%s\n", r.prop, path)
+			} else {
+				fmt.Printf("FAILED bounded stand-in %s could not be run\n", br.Name)
+				fmt.Printf("VIOLATION property=%s replay=%s no-failing-input-found\n", r.prop, path)
+			}
+		}
+	}
 	if nObl == 0 && r.prop != "" {
 		violations++
 		fmt.Printf("FAILED no obligations were generated for %s (vacuous check)\n", r.prop)
@@ -487,7 +511,7 @@ func (r *Report) finish(noEvidence bool) int {
 				"vacuity_covers":           map[string]int{"total": nCover, "satisfiable": nCoverOK},
 				"samples":                  samples,
 				"known_findings_hit":       knownHit,
-				"bounded_standins":         boundedStandins[r.prop],
+				"bounded_standins":         bounded,
 				"explanation":              "every obligation is generated from the current /repo source (go/ssa) and the contracts in zz_contracts_verif.go; discharged = solver answered unsat for the negated obligation",
 			},
 			"assumptions": assumptions,
@@ -507,6 +531,5 @@ func (r *Report) finish(noEvidence bool) int {
 func round3(x float64) float64 { return float64(int(x*1000+0.5)) / 1000 }
 
 var propAssumptions = map[string][]string{}
-var boundedStandins = map[string][]string{}
 
 var _ = ssa.BuilderMode(0)
